@@ -412,6 +412,7 @@ func TestVerifC04Damage(t *testing.T) {
 		layoutDrift atomic.Int64
 		noChange    atomic.Int64
 	)
+	var perDB []string
 	for bi, b := range behs {
 		if infra.Load() != nil || c03Bad.Load() >= 20 {
 			break
@@ -536,6 +537,7 @@ func TestVerifC04Damage(t *testing.T) {
 			}(wk)
 		}
 		wg.Wait()
+		perDB = append(perDB, fmt.Sprintf("%d:%d", bi, len(all)))
 		os.RemoveAll(base)
 		for wk := 0; wk < 10; wk++ {
 			os.RemoveAll(filepath.Join(root, fmt.Sprintf("c04-%d-w%d", bi, wk)))
@@ -551,7 +553,7 @@ func TestVerifC04Damage(t *testing.T) {
 	}
 	sort.Strings(cl)
 	verifh.Stat(map[string]any{"damaged_reopens": nrun.Load(), "open_failures_allowed": nopenfail.Load(), "databases": len(behs),
-		"damage_classes": strings.Join(cl, " "), "layout_drift": layoutDrift.Load(), "noop_damages_skipped": noChange.Load()})
+		"damage_classes": strings.Join(cl, " "), "layout_drift": layoutDrift.Load(), "noop_damages_skipped": noChange.Load(), "damages_per_database": strings.Join(perDB, " ")})
 	verifh.Done(int(nrun.Load()))
 	if c03Bad.Load() > 0 {
 		t.Fail()
@@ -602,11 +604,11 @@ func c04One(bi, wk int, d c04Damage, root, base string, w []c03Step, seed int64,
 					}
 					return "", ""
 				}, true)
-				if sig == "acked-sample-lost" && d.file == "hc" && conc.Snapshot {
+				if (sig == "acked-sample-lost" || sig == "not-durable-after-recovery:acked-sample-lost") && d.file == "hc" && conc.Snapshot {
 					// known deviation KF-C04-3: with EnableMemorySnapshotOnShutdown the chunk snapshot is trusted although
 					// repairLastChunkFile has silently removed the (truncated) newest head-chunk file it depends on
-					sig = "snapshot:acked-sample-lost"
-					msg += " (chunk snapshot enabled: the snapshot is loaded and the WAL replayed only from its offset although the m-mapped chunk file it relies on was removed by repairLastChunkFile)"
+					sig = "snapshot:" + sig
+					msg += " (chunk snapshot enabled: a snapshot stays trusted — the WAL is replayed only from its offset — although m-mapped chunk files it relies on were removed: by repairLastChunkFile in this Open, or by DeleteCorrupted in the Open before the kill)"
 				}
 				if sig == "deleted-sample-replayed-from-wal" {
 					sig = "phantom-sample" // KF-C03-3 needs a dropped block; the damage tables already allow deleted samples (may = ever written)
